@@ -9,7 +9,11 @@ from harness.common import Failure, Spec, coq_list
 
 # case = {"kind": "lock"|"sem", "limit": n, "ops": [op]}
 #   sop = ["acq"] | ["run", fn] | ["rel", i] | ["relself"] | ["cancel", i] | ["fire", j, ok, v]
-#   op  = sop | ["acqthen", [sop]] | ["runthen", [sop], fn]
+#   op  = sop | ["acqthen", [sop]] | ["acqthen", [sop], [sop]] | ["runthen", [sop], fn]
+#         acqthen sc esc: acquire().addCallbacks(lambda _: sc, lambda failure: esc) - sc runs (re-entrantly) when the
+#         acquisition is granted, esc when it is cancelled while pending
+#   a fn may end with "kw:NAME": run(f, NAME=1) - a keyword argument for f whose name collides with a parameter name used
+#         inside defer.py (callback, errback, callbackArgs, args, kwargs, self, result ...); f must receive it
 #   fn  = ["ret", v] | ["raise"] | ["defer"] | ["chain"] | ["raisebase"] | ["retd", v] | ["faild"] | ["coret", v] | ["coraise"]
 #         raisebase: raises synchronously a BaseException that is not an Exception;  retd / faild: returns an already
 #         fired / failed Deferred;  coret / coraise: f is a coroutine function returning v / raising.  For the model
@@ -79,7 +83,7 @@ def impl(case) -> str:
         for o in sc:
             sop(["rel", me] if o[0] == "relself" else o)
 
-    def acquire(sc):
+    def acquire(sc, esc=()):
         i = len(acqs)
         acqs.append(None)
         d = prim.acquire()
@@ -96,6 +100,8 @@ def impl(case) -> str:
         def err(f):
             seen.append(1)
             ev(f"C{i}" if f.check(defer.CancelledError) else f"E{i}:{f.type.__name__}")
+            if f.check(defer.CancelledError):
+                script(i, esc)
 
         d.addCallbacks(guarded(ok), guarded(err))
         if not seen:
@@ -106,7 +112,11 @@ def impl(case) -> str:
         acqs.append(None)
         seen = []
 
-        def f():
+        kwname = fn[-1][3:] if isinstance(fn[-1], str) and fn[-1].startswith("kw:") else None
+
+        def f(**kw):
+            if sorted(kw) != ([kwname] if kwname else []):
+                raise AssertionError(f"function received keyword arguments {sorted(kw)}, expected {kwname}")
             seen.append(1)
             started.add(j)
             ev(f"G{j}")
@@ -141,10 +151,10 @@ def impl(case) -> str:
         if fn[0] in ("coret", "coraise"):
             body = f
 
-            async def f():             # noqa: F811 - the same behaviour as a coroutine function
-                return body()
+            async def f(**kw):         # noqa: F811 - the same behaviour as a coroutine function
+                return body(**kw)
 
-        d = prim.run(f)
+        d = prim.run(f, **({kwname: 1} if kwname else {}))
         acqs[j] = d
 
         def ok(v):
@@ -173,7 +183,7 @@ def impl(case) -> str:
         if k == "acq":
             acquire([])
         elif k == "acqthen":
-            acquire(o[1])
+            acquire(o[1], o[2] if len(o) > 2 else ())
         elif k == "run":
             run([], o[1])
         elif k == "runthen":
@@ -229,6 +239,11 @@ def impl(case) -> str:
 EV = re.compile(r"^([WGLCNFRE])(\d+|\?)?(?::(.+))?@(\d+)$")
 
 
+def _scripts(o):
+    """all script operations of an acqthen / runthen op"""
+    return list(o[1]) + (list(o[2]) if o[0] == "acqthen" and len(o) > 2 else [])
+
+
 def cascade_depth(case) -> int:
     """upper bound on the nesting of synchronous run() completions a history can reach"""
     n = 0
@@ -236,7 +251,7 @@ def cascade_depth(case) -> int:
         if o[0] in ("run", "runthen") and (o[-1][0] not in ("defer", "chain")):
             n += 1
         if o[0] in ("acqthen", "runthen"):
-            n += sum(1 for x in o[1] if x[0] == "run")
+            n += sum(1 for x in _scripts(o) if x[0] == "run")
     return n
 
 
@@ -346,7 +361,17 @@ def oracle(case, obs):
 # ---------------------------------------------------------------------------------------------
 # generation
 
+KWNAMES = ["callback", "errback", "callbackArgs", "callbackKeywords", "args", "kwargs", "self", "result", "x"]
+
+
 def _fn(rng):
+    f = _fn0(rng)
+    if rng.random() < 0.25:
+        f = f + ["kw:" + rng.choice(KWNAMES)]
+    return f
+
+
+def _fn0(rng):
     r = rng.random()
     if r < 0.45:
         return [rng.choice(["ret", "ret", "retd", "coret"]), rng.randrange(100)]
@@ -374,7 +399,7 @@ def _count_ids(ops):
         if o[0] in ("acq", "run", "acqthen", "runthen"):
             n += 1
         if o[0] in ("acqthen", "runthen"):
-            n += sum(1 for x in o[1] if x[0] in ("acq", "run"))
+            n += sum(1 for x in _scripts(o) if x[0] in ("acq", "run"))
     return n
 
 
@@ -384,7 +409,8 @@ def _random_history(rng, n):
         nid = _count_ids(ops)
         r = rng.random()
         if r < 0.15:
-            ops.append(["acqthen", [_sop(rng, nid + 1, True) for _ in range(rng.randrange(1, 4))]])
+            ops.append(["acqthen", [_sop(rng, nid + 1, True) for _ in range(rng.randrange(0, 4))],
+                        [_sop(rng, nid + 1, True) for _ in range(rng.randrange(0, 3))]])
         elif r < 0.3:
             ops.append(["runthen", [_sop(rng, nid + 1, True) for _ in range(rng.randrange(1, 4))], _fn(rng)])
         else:
@@ -394,7 +420,7 @@ def _random_history(rng, n):
 
 ALPHA = [["acq"], ["run", ["ret", 7]], ["run", ["raise"]], ["run", ["raisebase"]], ["run", ["defer"]], ["run", ["chain"]], ["rel", 0], ["rel", 1], ["rel", 2],
          ["cancel", 0], ["cancel", 1], ["cancel", 2], ["fire", 0, True, 5], ["fire", 1, False, 0], ["fire", 2, True, 6],
-         ["acqthen", [["relself"]]], ["runthen", [["acq"], ["cancel", 1]], ["ret", 3]]]
+         ["acqthen", [["relself"]]], ["acqthen", [], [["rel", 0]]], ["runthen", [["acq"], ["cancel", 1]], ["ret", 3]]]
 
 
 def gen(rng, tier):
@@ -410,6 +436,20 @@ def gen(rng, tier):
     for _ in range(200 if tier == "quick" else 6000):
         kind, limit = rng.choice(kinds + [("sem", 5)])
         cases.append({"kind": kind, "limit": limit, "ops": _random_history(rng, rng.randrange(6, 50))})
+    # cancelled waiters with re-entrant errbacks: the primitive fully held, a queue of pending acquisitions whose errbacks
+    # release for a current holder / acquire / cancel another waiter, then some of them (often the oldest) cancelled
+    for _ in range(60 if tier == "quick" else 1500):
+        kind, limit = rng.choice(kinds)
+        ops = [["acq"] for _ in range(limit)]
+        nw = rng.randrange(2, 5)
+        for w in range(nw):
+            esc = [rng.choice([["rel", rng.randrange(limit)], ["acq"], ["cancel", limit + rng.randrange(nw)],
+                               ["run", _fn(rng)]]) for _ in range(rng.randrange(0, 3))]
+            ops.append(["acqthen", [["relself"]] if rng.random() < 0.5 else [], esc])
+        for _ in range(rng.randrange(1, 4)):
+            r = rng.random()
+            ops.append(["cancel", limit if r < 0.5 else limit + rng.randrange(nw)] if r < 0.8 else ["rel", rng.randrange(limit)])
+        cases.append({"kind": kind, "limit": limit, "ops": ops})
     # bursts: a holder, then many run() calls queue up behind it, then the holder releases (the whole queue is
     # served from inside that one release() call)
     for b in range(8 if tier == "quick" else 60):
@@ -436,6 +476,13 @@ def corpus():
         {"kind": "sem", "limit": 2, "ops": [["acq"], ["run", ["chain"]], ["acq"], ["run", ["chain"]], ["fire", 1, True, 5],
                                              ["cancel", 3], ["rel", 0], ["fire", 3, False, 0]]},
         {"kind": "lock", "limit": 1, "ops": [["run", ["chain"]], ["acq"], ["fire", 0, False, 0], ["rel", 1]]},
+        # the oldest pending acquisition is cancelled and its errback, re-entrantly, releases for the current holder
+        {"kind": "lock", "limit": 1, "ops": [["acq"], ["acqthen", [], [["rel", 0]]], ["acq"], ["cancel", 1]]},
+        {"kind": "sem", "limit": 2, "ops": [["acq"], ["acq"], ["acqthen", [["relself"]], [["rel", 1], ["acq"], ["cancel", 3]]],
+                                             ["acq"], ["run", ["ret", 5]], ["cancel", 2], ["rel", 0]]},
+        # keyword arguments for f whose names collide with parameter names used inside defer.py
+        {"kind": "lock", "limit": 1, "ops": [["run", ["ret", 1, "kw:callback"]], ["acq"], ["run", ["defer", "kw:errback"]],
+                                              ["run", ["raise", "kw:callbackArgs"]], ["rel", 1], ["fire", 2, True, 3]]},
         # every kind of function outcome must give the token back: BaseException-only, fired/failed Deferred, coroutine
         {"kind": "lock", "limit": 1, "ops": [["run", ["raisebase"]], ["run", ["faild"]], ["run", ["coraise"]], ["run", ["retd", 4]],
                                               ["run", ["coret", 5]], ["acq"]]},
@@ -469,7 +516,7 @@ def _sop_coq(o):
 
 def _weight(o):
     if o[0] == "acqthen":
-        return 1 + sum(3 for _ in o[1])
+        return 1 + sum(3 for _ in _scripts(o))
     if o[0] == "runthen":
         return 3 + sum(3 for _ in o[1])
     return 3
@@ -481,7 +528,8 @@ def to_coq(case):
     ops = []
     for o in case["ops"]:
         if o[0] == "acqthen":
-            ops.append(f"AcqThen {coq_list(map(_sop_coq, o[1]), 'sop')}")
+            ops.append(f"AcqThen {coq_list(map(_sop_coq, o[1]), 'sop')} "
+                       f"{coq_list(map(_sop_coq, o[2] if len(o) > 2 else []), 'sop')}")
         elif o[0] == "runthen":
             ops.append(f"RunThen {coq_list(map(_sop_coq, o[1]), 'sop')} {_fn_coq(o[2])}")
         else:
@@ -503,11 +551,12 @@ def shrink(case):
     for i in range(len(ops)):
         yield {**case, "ops": ops[:i] + ops[i + 1:]}
     for i, o in enumerate(ops):
-        if o[0] in ("acqthen", "runthen") and o[1]:
-            for j in range(len(o[1])):
-                o2 = list(o)
-                o2[1] = o[1][:j] + o[1][j + 1:]
-                yield {**case, "ops": ops[:i] + [o2] + ops[i + 1:]}
+        if o[0] in ("acqthen", "runthen"):
+            for slot in ((1, 2) if o[0] == "acqthen" and len(o) > 2 else (1,)):
+                for j in range(len(o[slot])):
+                    o2 = list(o)
+                    o2[slot] = o[slot][:j] + o[slot][j + 1:]
+                    yield {**case, "ops": ops[:i] + [o2] + ops[i + 1:]}
 
 
 def histogram(c, o):
@@ -525,9 +574,9 @@ SPEC = Spec(
     nontrivial=lambda c, o: sum(1 for t in ("W", "C", "R", "L") if t in o) >= 2,
     histogram=histogram,
     rule="every history of length <= 3 (quick; length 3 sampled 3%) / <= 4 (thorough; length 4 sampled 20%) over a "
-         "17-letter alphabet (acquire, run with returning/raising/unfired-Deferred-returning/already-fired-but-suspended-"
+         "18-letter alphabet (acquire, run with returning/raising/unfired-Deferred-returning/already-fired-but-suspended-"
          "Deferred-returning function, function raising a BaseException that is not an Exception, release by holder "
-         "0-2, cancel 0-2, fire 0-2, acquire-then-release-in-callback, run whose function re-enters the primitive) "
+         "0-2, cancel 0-2, fire 0-2, acquire-then-release-in-callback, acquire whose errback (run when it is cancelled while pending) releases for holder 0, run whose function re-enters the primitive) "
          "for DeferredLock and DeferredSemaphore(1..3); random histories of 6-50 ops (limits up to 5) in which 30% "
          "of the ops carry re-entrant scripts; bursts of 3-400 run() calls queued behind a holder; non-trivial = at "
          "least two of {wait, cancel, run result, release} occur; distinct by (case, observation)",
